@@ -32,7 +32,7 @@ def _single_cases(draw, tier):
     precision = draw(st.sampled_from([None, None, None, None, None, 3, 4, 8]))
     d = draw(gen.spline(max_p=7 if big else 4, max_extra=8 if big else 4, dims=None,
                         unclamped="maybe", affine_range="maybe", normalize="maybe",
-                        vol_max_p=3, vol_max_extra=3 if big else 2, micro=precision is None))
+                        vol_max_p=3, vol_max_extra=3 if big else 2, micro=precision is None, long=True))
     if precision is not None:
         d["precision"] = precision
     if draw(st.integers(0, 9)) == 0 and d["kind"] == "curve":
